@@ -466,6 +466,13 @@ func (c *Cursor) Filter(ctx context.Context, idxStr string, val []interface{}) e
 		}
 		op := Op(opInt)
 		c.ops[i] = op
+		if val[i] == nil {
+			// a comparison with NULL is never true: no rows
+			c.currentKey = nil
+			c.currentRow = nil
+			c.eof = true
+			return nil
+		}
 		c.operands[i] = NewKey(val[i])
 		if op == OpLT || op == OpLE || op == OpEQ {
 			if c.max == nil || c.max != nil && c.operands[i].Order(c.max) < 0 {
